@@ -42,16 +42,18 @@ def apply_contract(it, c, fi, args, kwargs) -> V:
     _havoc(it, c, env, c.modifies_)
     res = make_value(it, c.result_type, f"{c.func}.result") if c.result_type is not None else NONE
     env.set("result", res)
+    for gname, gtype, _, _ in c.ghost_outs:
+        env.set(gname, make_value(it, gtype, f"{c.func}.{gname}"))
     clauses.eval_lets(it, c.post_lets, env)
     for cl in c.returns_:
         if cl.extra.get("caller_assumes", True):
             g = clauses.eval_clause(it, cl, env)
             it.assume(g)
-            lit = _pinned_literal(g, res)
-            if lit is not None:
-                res = lit
+            res2 = _define_result(g, res)
+            if res2 is not res:
+                res = res2
                 env.set("result", res)
-    it.trace.append(("call", c.func))
+    it.trace.append(("call", c.func, dict(env.vars), res))
     return res
 
 
@@ -100,3 +102,40 @@ def _pinned_literal(goal, res):
                 if z3.is_string_value(y):
                     return VStr(y.as_string())
     return None
+
+
+def _define_result(goal, res):
+    """Postconditions of the form `result == t` / `result[i] == t` (possibly inside a conjunction) DEFINE the result:
+    the term t itself is used as the value, which keeps caller-side goals syntactically close to callee-side terms."""
+    from .values import VInt, VStr, VBool, VBytes, VTuple, VList
+    conj = []
+
+    def flat(e):
+        if z3.is_and(e):
+            for ch in e.children():
+                flat(ch)
+        else:
+            conj.append(e)
+    flat(goal)
+
+    def contains(t, x):
+        if z3.eq(t, x):
+            return True
+        return any(contains(ch, x) for ch in t.children())
+
+    def define(v):
+        if not isinstance(v, (VInt, VStr, VBool, VBytes)) or v.conc is not None:
+            return v
+        for e in conj:
+            if z3.is_eq(e):
+                a, b = e.arg(0), e.arg(1)
+                for x, y in ((a, b), (b, a)):
+                    if z3.eq(x, v.e) and not contains(y, v.e):
+                        return type(v)(y)
+        return v
+    if isinstance(res, (VTuple, VList)):
+        items = [define(x) for x in res.items]
+        if any(a is not b for a, b in zip(items, res.items)):
+            return type(res)(items)
+        return res
+    return define(res)
